@@ -412,6 +412,13 @@ pub fn copy_scenario<const N: usize>(front: usize, back: usize) -> Result<(), St
     if !b.is_full() || !b2.is_full() || b.len() != N {
         return Err("u32 builder not full after N pushes".into());
     }
+    // over-filling a full builder must panic and leave it intact
+    if std::panic::catch_unwind(std::panic::AssertUnwindSafe(|| b.push(9999))).is_ok() {
+        return Err(format!("u32 builder of {N}: push onto a full builder did not panic"));
+    }
+    if b.len() != N || !b.is_full() || b.as_slice().len() != N {
+        return Err(format!("u32 builder of {N}: state changed by a rejected push: len {}", b.len()));
+    }
     let (r1, r2) = (b.build(), b2.build());
     for i in 0..N {
         let (e1, e2) = if i < pre { (i as u32, i as u32) } else { (100 + i as u32, 200 + i as u32) };
@@ -462,6 +469,7 @@ pub fn zst_scenario<const N: usize>(front: usize, back: usize, clone: bool) -> R
         drop(c2);
     }
     // builder: push what we hold, build only if full
+    let mut extra_drops = 0u64;
     let mut b = ArrayBuilder::<ZTok, N>::new();
     let hl = held.len();
     for t in held.drain(..) {
@@ -471,6 +479,20 @@ pub fn zst_scenario<const N: usize>(front: usize, back: usize, clone: bool) -> R
         return Err("ZST builder len".into());
     }
     if b.is_full() {
+        // a full builder of zero-sized elements must still reject one more
+        let extra = ZTok::fresh();
+        let d0 = with(|l| l.zst_drops);
+        if std::panic::catch_unwind(std::panic::AssertUnwindSafe(|| b.push(extra))).is_ok() {
+            return Err(format!("ZST builder of {N}: push onto a full builder did not panic"));
+        }
+        // the rejected token is dropped by the unwind (0 or 1 times on this non-completing path)
+        extra_drops = with(|l| l.zst_drops) - d0;
+        if extra_drops > 1 {
+            return Err("ZST builder: the rejected token was dropped more than once".into());
+        }
+        if b.len() != N || !b.is_full() || b.as_slice().len() != N {
+            return Err(format!("ZST builder of {N}: len {} after a rejected push", b.len()));
+        }
         let arr = b.build();
         drop(arr);
     } else {
@@ -478,8 +500,10 @@ pub fn zst_scenario<const N: usize>(front: usize, back: usize, clone: bool) -> R
     }
     drop(c);
     let (live, drops) = with(|l| (l.zst_live, l.zst_drops));
-    if live != 0 || drops != (N + cloned) as u64 {
-        return Err(format!("ZST ledger: live {live} (expected 0), drops {drops} (expected {})", N + cloned));
+    let rejected_pushes: i64 = if hl == N { 1 } else { 0 };
+    let want_live = rejected_pushes - extra_drops as i64;
+    if live != want_live || drops != (N + cloned) as u64 + extra_drops {
+        return Err(format!("ZST ledger: live {live} (expected {want_live}), drops {drops} (expected {})", (N + cloned) as u64 + extra_drops));
     }
     Ok(())
 }
